@@ -56,7 +56,7 @@ theorem validLf32 (s : Sizes) (hr : s.InRange) : validLf lim32 s = some (sumI s.
 theorem checks_spec (s : Sizes) (len : Nat) (junk : Bool) (hr : s.InRange) (hlf : 4 * s.lf ≤ len) :
     (∃ e, checks false s len junk = .err e junk) ∨
     (checks false s len junk = .ok ⟨s, (bcecOf s).1, (bcecOf s).2, slicesFrom 0 s.parts⟩ junk ∧
-      s.lf = sumI s.parts ∧ (∀ u ∈ s.parts, 0 ≤ u)) := by
+      s.lf = sumI s.parts ∧ (∀ u ∈ s.parts, 0 ≤ u) ∧ 2 ≤ s.lh) := by
   have hv := validLf32 s hr
   have a3 := hr s.bc (by simp [Sizes.toList])
   have a4 := hr s.ec (by simp [Sizes.toList])
@@ -101,7 +101,7 @@ theorem checks_spec (s : Sizes) (len : Nat) (junk : Bool) (hr : s.InRange) (hlf 
     intro u hu
     simp only [Sizes.parts, List.mem_cons, List.not_mem_nil, or_false] at hu
     rcases hu with rfl | rfl | rfl | rfl | rfl | rfl | rfl | rfl | rfl | rfl | rfl <;> omega
-  refine ⟨?_, hlfeq, hnn⟩
+  refine ⟨?_, hlfeq, hnn, by omega⟩
   have := finish_eq len s (bcecOf s).1 (bcecOf s).2 junk hnc hnn (by omega)
   simpa [bcecOf] using this
 
